@@ -110,6 +110,21 @@ func genSpecials(r *Rng) []special {
 		return specialHeader() + "func Special(a int, b int, s string, xs []int) int {\n\tt := \"k\"\n\tif a > b {\n\t\tt = \"longer\"\n\t}\n\tu := " + e + "\n\tif len(u) > 0 && u[0] == 'k' {\n\t\treturn 1\n\t}\n\treturn len(u)\n}\n"
 	}
 	out = append(out, special{Name: "string-concat-operands-exchanged", Family: "string-commute", P: sc(false), Q: sc(true)})
+	// 2e. the WIDTH of a type declared inside the function: `type T int8` against `type T int16`; the
+	// conversion wraps for one and not for the other (known findings F18a-d while defined types are printed
+	// by name only)
+	lt := func(w string) string {
+		return specialHeader() + "func Special(a int, b int, s string, xs []int) int {\n\ttype T " + w + "\n\treturn int(T(a*40+b)) + len(s)\n}\n"
+	}
+	out = append(out, special{Name: "local-defined-type-width", Family: "local-type-width", P: lt("int8"), Q: lt("int16")})
+	// 2f. a loop WITHOUT post statement whose counter is stepped on the normal path and SET on a `continue`
+	// path (a back edge of its own): set to the other counter, to 0, to a constant - three behaviours, and
+	// none of them the recurrence {0, +, 1} that the stepping path alone would suggest
+	cr := func(v string) string {
+		return specialHeader() + "func Special(a int, b int, s string, xs []int) int {\n\ti, k, t := 0, 0, 0\n\tn := a + 9\n\tfor k < n {\n\t\tk++\n\t\tif k%4 == 0 {\n\t\t\ti = " + v + "\n\t\t\tcontinue\n\t\t}\n\t\ti++\n\t\tt += i\n\t}\n\treturn t + len(s)\n}\n"
+	}
+	out = append(out, special{Name: "counter-set-on-continue-k-vs-0", Family: "counter-set-on-continue", P: cr("k"), Q: cr("0")})
+	out = append(out, special{Name: "counter-set-on-continue-0-vs-7", Family: "counter-set-on-continue", P: cr("0"), Q: cr("7")})
 	// 2e. a slice bound moved to another position (xs[1:] vs xs[:1]; s[i:j] vs s[:i:j] are positional operands)
 	sl := func(e string) string {
 		return specialHeader() + "func Special(a int, b int, s string, xs []int) int {\n\tif len(xs) < 3 {\n\t\treturn -1\n\t}\n\tys := " + e + "\n\treturn len(ys)*100 + cap(ys)*10 + ys[0]\n}\n"
